@@ -67,16 +67,12 @@ theorem irred_equals_full {G X V K : Type} [DecidableEq X] [Field K] [CharZero K
 section ModelLevel
 variable {K : Type} [Field K] [CharZero K] {r : Nat} (ι : Rat →+* K) (conj : K →+* K)
 
-theorem foldl_pts_eq {α : Type} (g : α → K) (l : List α) :
-    l.foldl (fun acc p => acc + g p) 0 = (l.map g).sum := by
-  rw [foldl_add_eq, zero_add]
-
 /-- T2 for the model of `run()`: `irrSum` (K-list with factors, `pointgroup.symmetrize` of every value, weighted
     sum) equals `fullSum` (every grid point with factor `1/N`, no symmetrisation), for the model's
-    `symmetrize_tensor` / `transform_tensor`, every rank, every Transform pair meeting the side condition, every
-    point group `L`, every action on grid points and every equivariant per-k value `f`. -/
-theorem run_irreducible_eq_full (hreal : ∀ a : Rat, conj (ι a) = ι a) (hinv : ∀ a, conj (conj a) = a)
-    (tTR tInv : Transform r) (hside : sideCond tTR tInv = true)
+    `symmetrize_tensor` / `transform_tensor`, every rank, every Transform pair, every point group `L`, every action
+    on grid points and every equivariant per-k value `f`.  (Only equivariance of `f` is used: the composition law
+    of `transform_tensor` — C09.transformTensor_mul and its side condition — is what makes equivariant `f` exist.) -/
+theorem run_irreducible_eq_full (tTR tInv : Transform r)
     (L : List (PSym Rat)) (hne : L ≠ []) (hnd : L.Nodup) (hcl : ∀ a ∈ L, ∀ b ∈ L, a.mul b ∈ L)
     (hp : ∀ g ∈ L, g.Proper)
     {X : Type} [DecidableEq X] (act : PSym Rat → X → X)
